@@ -348,6 +348,15 @@ def _criteria(spec):
             if name == "max_members":
                 out.append(lambda acc, cur, components, k=thr: len(components) < k)
                 continue
+            if name == "raise_after":
+                # a user's criterion that fails on its k-th call and accepts every pair before that
+                def failing(acc, cur, components, k=thr, n=[0]):
+                    n[0] += 1
+                    if n[0] >= k:
+                        raise RuntimeError("criterion failed")
+                    return True
+                out.append(failing)
+                continue
             out.append({"end_thr": mc.overlap_end_threshold, "start_thr": mc.overlap_start_threshold,
                         "any_thr": mc.overlap_any_threshold}[name](thr))
     return out
